@@ -78,7 +78,7 @@ Print Assumptions C02_failsb_correct.
 (* Known finding F-C02a: with follow_dynamic a missing ROOT is silently skipped. *)
 Definition c02_missing_root_graph : graph :=
   {| g_kind := KAll; g_roots := [1]; g_slots := [(1, SErr (Some 1) 5)];
-     g_redirects := []; g_imports := []; g_schemes := [] |}.
+     g_redirects := []; g_imports := []; g_schemes := []; g_has_node := false; g_errkinds := [] |}.
 Definition c02_fd_opts : wopts :=
   {| w_kind := KAll; w_follow_dynamic := true; w_check_js := fun _ => true; w_prefer_fc := false |}.
 Theorem C02_follow_dynamic_missing_root_refuted :
@@ -93,13 +93,13 @@ Print Assumptions C02_follow_dynamic_missing_root_refuted.
 (* Non-vacuity of C02_validate_iff: a graph whose static import is missing fails, and one
    where the only missing module is behind a dynamic import validates. *)
 Definition c02_dep (t : N) (target : spec) (dyn : bool) : dep :=
-  {| d_text := t; d_filelike := false; d_code := ROk target 0; d_type := RNone; d_dyn := dyn |}.
+  {| d_text := t; d_filelike := false; d_code := ROk target 0; d_type := RNone; d_dyn := dyn; d_deno_types := false |}.
 Definition c02_graph (dyn : bool) : graph :=
   {| g_kind := KAll; g_roots := [1];
      g_slots := [(1, SMod {| m_kind := MkJs; m_spec := 1; m_media := MTypeScript;
-                              m_deps := [c02_dep 10 2 dyn]; m_types_dep := None; m_fc_deps := None |});
+                              m_deps := [c02_dep 10 2 dyn]; m_types_dep := None; m_fc_deps := None; m_dts := false |});
                  (2, SErr (Some 2) 7)];
-     g_redirects := []; g_imports := []; g_schemes := [] |}.
+     g_redirects := []; g_imports := []; g_schemes := []; g_has_node := false; g_errkinds := [] |}.
 Example C02_nonvacuous :
   valid (c02_graph false) = Some (Some (GModule 7)) /\ valid (c02_graph true) = Some None.
 Proof. split; vm_compute; reflexivity. Qed.
